@@ -274,6 +274,69 @@ func c04Abbrev(b []byte) string {
 
 var c04IdentityOnce sync.Once
 
+// ---- ownership of results ------------------------------------------------------
+// A caller owns what it gets back: the bn256 API works in place (p.Neg(p),
+// p.Add(p, q), p.ScalarMult(p, k)), so using a returned point - or scribbling
+// over a returned / passed byte slice - must not change what the same input
+// yields the next time, nor what another caller already holds.
+
+// c04UseG1 overwrites p with something else through the in-place API.
+func c04UseG1(p *bn256.G1, op int, k *big.Int) string {
+	switch op % 5 {
+	case 0:
+		p.Neg(p)
+		return "neg"
+	case 1:
+		p.Add(p, new(bn256.G1).ScalarBaseMult(k))
+		return "add"
+	case 2:
+		p.ScalarMult(p, new(big.Int).Add(k, big.NewInt(1)))
+		return "scalar-mult"
+	case 3:
+		p.ScalarBaseMult(k)
+		return "overwrite"
+	default:
+		p.Add(p, p)
+		return "double"
+	}
+}
+
+func c04UseG2(p *bn256.G2, op int, k *big.Int) string {
+	switch op % 5 {
+	case 0:
+		p.Neg(p)
+		return "neg"
+	case 1:
+		p.Add(p, new(bn256.G2).ScalarBaseMult(k))
+		return "add"
+	case 2:
+		p.ScalarMult(p, new(big.Int).Add(k, big.NewInt(1)))
+		return "scalar-mult"
+	case 3:
+		p.ScalarBaseMult(k)
+		return "overwrite"
+	default:
+		p.Add(p, p)
+		return "double"
+	}
+}
+
+func c04GenUse(t *rapid.T, label string) (int, *big.Int) {
+	return rapid.IntRange(0, 4).Draw(t, label+"Use"), big.NewInt(int64(rapid.IntRange(1, 1000).Draw(t, label+"UseScalar")))
+}
+
+func c04Scribble(b []byte) {
+	for i := range b {
+		b[i] ^= 0xa5
+	}
+}
+
+// c04Unstable is returned by the guarded calls when the same input decoded to
+// something else after the caller used the first result.
+type c04Unstable struct{ msg string }
+
+func (e *c04Unstable) Error() string { return e.msg }
+
 // TestVerif_C04_RoundTripG1: Decompress(Compress(k*G1)) == k*G1; the other
 // parity bit decodes to -k*G1; the model agrees with the encoding.
 func TestVerif_C04_RoundTripG1(t *testing.T) {
@@ -307,6 +370,22 @@ func TestVerif_C04_RoundTripG1(t *testing.T) {
 		if !bytes.Equal(q.Marshal(), p.Marshal()) {
 			t.Fatalf("G1 round trip changed the point: k=%x compressed=%x\n in  %x\n out %x", k, c, p.Marshal(), q.Marshal())
 		}
+		// the caller owns q and c: using q in place / scribbling over c changes nothing
+		pBytes := p.Marshal()
+		useOp, useK := c04GenUse(t, "g1")
+		how := c04UseG1(q, useOp, useK)
+		saved := append([]byte{}, c...)
+		if q2, err := DecompressToG1(saved); err != nil || !bytes.Equal(q2.Marshal(), pBytes) {
+			t.Fatalf("DecompressToG1(%x) gives another result (err %v) after the caller applied %s to the first result", saved, err, how)
+		}
+		c04Scribble(c)
+		if !bytes.Equal(p.Marshal(), pBytes) {
+			t.Fatalf("scribbling over the compressed bytes changed the point they were compressed from (k=%x)", k)
+		}
+		if c3 := (G1Point{p}).Compress(); !bytes.Equal(c3, saved) {
+			t.Fatalf("Compress(%x*G1) gives %x after the caller overwrote the earlier result %x", k, c3, saved)
+		}
+		c = saved
 		// the encoding is what the model decodes to the same point
 		if want := c04ModelG1(c); !bytes.Equal(want, p.Marshal()) {
 			t.Fatalf("compression %x of %x*G1 does not stand for that point (x plus parity of y): model decodes %x, point %x", c, k, want, p.Marshal())
@@ -346,6 +425,22 @@ func TestVerif_C04_RoundTripG2(t *testing.T) {
 		if !bytes.Equal(q.Marshal(), p.Marshal()) {
 			t.Fatalf("G2 round trip changed the point: k=%x compressed=%x\n in  %x\n out %x", k, c, p.Marshal(), q.Marshal())
 		}
+		// the caller owns q and c: using q in place / scribbling over c changes nothing
+		pBytes := p.Marshal()
+		useOp, useK := c04GenUse(t, "g2")
+		how := c04UseG2(q, useOp, useK)
+		saved := append([]byte{}, c...)
+		if q2, err := DecompressToG2(saved); err != nil || !bytes.Equal(q2.Marshal(), pBytes) {
+			t.Fatalf("DecompressToG2(%x) gives another result (err %v) after the caller applied %s to the first result", saved, err, how)
+		}
+		c04Scribble(c)
+		if !bytes.Equal(p.Marshal(), pBytes) {
+			t.Fatalf("scribbling over the compressed bytes changed the point they were compressed from (k=%x)", k)
+		}
+		if c3 := (G2Point{p}).Compress(); !bytes.Equal(c3, saved) {
+			t.Fatalf("Compress(%x*G2) gives %x after the caller overwrote the earlier result", k, c3)
+		}
+		c = saved
 		if v := c04ModelG2(c); v.class != "valid" || !bytes.Equal(v.expected, p.Marshal()) {
 			t.Fatalf("compression %x of %x*G2 does not stand for that point (x plus parity of y): model says %s", c, k, v.class)
 		}
@@ -428,7 +523,37 @@ func TestVerif_C04_HashToPoint(t *testing.T) {
 		if q, err := DecompressToG1(G1Point{p1}.Compress()); err != nil || !bytes.Equal(q.Marshal(), b) {
 			t.Fatalf("hash point of %s does not survive the compression round trip: %v", c04Abbrev(m), err)
 		}
-		st.Case(true, fmt.Sprintf("m=%s(%d) -> %s", c04Abbrev(m), len(m), c04Abbrev(b)), "message:"+class, fmt.Sprintf("nil-slice:%v", nilCase))
+		// "deterministically": the same bytes hash to the same point however the
+		// callers used the points they were given before (two rounds), and a
+		// point already handed out does not change when another one is used
+		mCopy := append([]byte{}, m...)
+		var uses []string
+		victim := p1
+		for round := 0; round < 2; round++ {
+			useOp, useK := c04GenUse(t, fmt.Sprintf("hash%d", round))
+			uses = append(uses, c04UseG1(victim, useOp, useK))
+			if round == 0 && !bytes.Equal(p2.Marshal(), b) {
+				t.Fatalf("the point a second caller got for %s changed when the first caller applied %s to its own", c04Abbrev(mCopy), uses[0])
+			}
+			again := G1HashToPoint(append([]byte{}, mCopy...))
+			if again == nil || !bytes.Equal(again.Marshal(), b) {
+				t.Fatalf("G1HashToPoint(%s) is not deterministic: %x first, %x after callers applied %v to points hashed earlier", c04Abbrev(mCopy), b, again.Marshal(), uses)
+			}
+			victim = again
+		}
+		if len(m) > 0 {
+			// the message buffer belongs to the caller as well
+			held := G1HashToPoint(m)
+			c04Scribble(m)
+			if !bytes.Equal(held.Marshal(), b) {
+				t.Fatalf("overwriting the message buffer changed the point hashed from it")
+			}
+			if again := G1HashToPoint(mCopy); !bytes.Equal(again.Marshal(), b) {
+				t.Fatalf("G1HashToPoint(%s) changed after the caller overwrote an earlier message buffer", c04Abbrev(mCopy))
+			}
+			m = mCopy
+		}
+		st.Case(true, fmt.Sprintf("m=%s(%d) -> %s uses=%v", c04Abbrev(m), len(m), c04Abbrev(b), uses), "message:"+class, fmt.Sprintf("nil-slice:%v", nilCase), "use:"+uses[0])
 	})
 }
 
@@ -529,6 +654,9 @@ func c04CheckG1(fatalf func(string, ...interface{}), in []byte, o c04Outcome) st
 	if o.panicked != nil {
 		fatalf("DecompressToG1(%x) panicked: %v", in, o.panicked)
 	}
+	if u, ok := o.err.(*c04Unstable); ok {
+		fatalf("%s", u.msg)
+	}
 	want := c04ModelG1(in)
 	if o.err != nil {
 		if want != nil {
@@ -557,7 +685,14 @@ func c04CallG1(in []byte) func() ([]byte, error) {
 		if err != nil || p == nil {
 			return nil, err
 		}
-		return p.Marshal(), nil
+		out := p.Marshal()
+		// the caller uses its point; the same bytes must decode as before
+		how := c04UseG1(p, int(in[31]), big.NewInt(int64(in[30])+1))
+		p2, err2 := DecompressToG1(append([]byte{}, in...))
+		if err2 != nil || p2 == nil || !bytes.Equal(p2.Marshal(), out) {
+			return nil, &c04Unstable{fmt.Sprintf("DecompressToG1(%x) = %x, but after the caller applied %s to that point the same bytes give err=%v point=%v", in, out, how, err2, p2)}
+		}
+		return out, nil
 	}
 }
 
@@ -673,6 +808,9 @@ func c04CheckG2(fatalf func(string, ...interface{}), in []byte, v c04G2Verdict, 
 	if o.panicked != nil {
 		fatalf("DecompressToG2(%x) panicked: %v (input class: %s)%s", in, o.panicked, v.class, tag)
 	}
+	if u, ok := o.err.(*c04Unstable); ok {
+		fatalf("%s", u.msg)
+	}
 	if o.err != nil {
 		if v.class == "valid" {
 			fatalf("DecompressToG2(%x) failed (%v) although the input is the compression of the point %x", in, o.err, v.expected)
@@ -708,7 +846,14 @@ func c04CallG2(in []byte) func() ([]byte, error) {
 		if err != nil || p == nil {
 			return nil, err
 		}
-		return p.Marshal(), nil
+		out := p.Marshal()
+		// the caller uses its point; the same bytes must decode as before
+		how := c04UseG2(p, int(in[63]), big.NewInt(int64(in[62])+1))
+		p2, err2 := DecompressToG2(append([]byte{}, in...))
+		if err2 != nil || p2 == nil || !bytes.Equal(p2.Marshal(), out) {
+			return nil, &c04Unstable{fmt.Sprintf("DecompressToG2(%x) = %x, but after the caller applied %s to that point the same bytes give err=%v point=%v", in, out, how, err2, p2)}
+		}
+		return out, nil
 	}
 }
 
